@@ -91,7 +91,7 @@ def _concretise_bools(arr):
         for idx in real_np.ndindex(*arr.shape):
             out[idx] = arr[idx].t
         return out
-    return arr
+    return arr.view(SymBoolArray) if isinstance(arr, real_np.ndarray) else arr
 
 
 def force_bool_array(arr):
@@ -431,6 +431,56 @@ class SymArray(real_np.ndarray):
 
     def tolist(self):
         return super().tolist()
+
+
+def _force_deep(x):
+    if isinstance(x, SymBoolArray):
+        return force_bool_array(x)
+    if isinstance(x, (list, tuple)):
+        return type(x)(_force_deep(v) for v in x)
+    return x
+
+
+_LOGICAL = ('logical_not', 'invert', 'logical_and', 'bitwise_and', 'logical_or', 'bitwise_or')
+
+
+class SymBoolArray(SymArray):
+    """object array of symbolic booleans produced by comparisons.  Logical operators,
+    use as an assignment mask and np.where stay lazy (ite terms); every other numpy
+    operation forces the elements (forking on each undecided one)."""
+
+    def __array_ufunc__(self, uf, method, *inputs, out=None, **kw):
+        name = uf.__name__
+        if method == '__call__' and name in _LOGICAL and out is None:
+            return UFUNCS[name](*[i.view(real_np.ndarray) if isinstance(i, real_np.ndarray) else i for i in inputs])
+        ins = [_force_deep(i) for i in inputs]
+        if out is not None:
+            kw['out'] = out
+        return getattr(uf, method)(*ins, **kw)
+
+    def __array_function__(self, func, types, args, kwargs):
+        return func(*_force_deep(args), **{k: _force_deep(v) for k, v in kwargs.items()})
+
+    def _forced(self):
+        return force_bool_array(self)
+
+    def sum(self, *a, **k): return self._forced().sum(*a, **k)
+    def cumsum(self, *a, **k): return self._forced().cumsum(*a, **k)
+    def nonzero(self): return self._forced().nonzero()
+    def astype(self, dtype, *a, **k): return self._forced().astype(dtype, *a, **k)
+    def mean(self, *a, **k): return self._forced().mean(*a, **k)
+    def tolist(self): return self._forced().tolist()
+
+    def all(self, axis=None, **kw):
+        return _reduce('logical_and', self.view(real_np.ndarray), axis=axis)
+
+    def any(self, axis=None, **kw):
+        return _reduce('logical_or', self.view(real_np.ndarray), axis=axis)
+
+    def __bool__(self):
+        if self.size == 1:
+            return bool(self.reshape(-1).view(real_np.ndarray)[0])
+        raise ValueError('The truth value of an array with more than one element is ambiguous.')
 
 
 def is_symbool(k):
